@@ -8,7 +8,7 @@ pid, x, checks = sys.argv[1], sys.argv[2], sys.argv[3:]
 rnd = os.environ.get("ROUND", "1")
 src = f"/tmp/seed-{pid}/{x}" if rnd == "1" else f"/tmp/seed{rnd}-{pid}/{x}"
 # round 2 seeds are stored as <ID>-c / <ID>-d
-suffix = {"1": {"a": "a", "b": "b"}, "2": {"a": "c", "b": "d"}, "3": {"a": "e", "b": "f"}, "4": {"a": "g", "b": "h"}, "5": {"a": "i", "b": "j"}, "6": {"a": "k", "b": "l"}, "7": {"a": "m", "b": "n"}}[rnd][x]
+suffix = {"1": {"a": "a", "b": "b"}, "2": {"a": "c", "b": "d"}, "3": {"a": "e", "b": "f"}, "4": {"a": "g", "b": "h"}, "5": {"a": "i", "b": "j"}, "6": {"a": "k", "b": "l"}, "7": {"a": "m", "b": "n"}, "8": {"a": "o", "b": "p"}}[rnd][x]
 dst = f"/verif/seeded/{pid}-{suffix}"
 c = subprocess.run(["/verif/tools/confirm_seed.sh", src, f"/tmp/wt-{pid}"], capture_output=True, text=True)
 confirmed = c.stdout.strip().endswith("CONFIRMED") and "NOT-CONFIRMED" not in c.stdout
